@@ -16,6 +16,7 @@ fn main() {
         "frames-record" => frames::record(rest),
         "packets-record" => frames::record_packets(rest),
         "spsc-record" => spsc::record(rest),
+        "worker-record" => spsc::worker_record(rest),
         "cc-run" => cc::run(rest),
         "reasm-replay" => reasm::replay(rest),
         "reasm-record" => reasm::record(rest),
